@@ -437,6 +437,24 @@ _t(
     "three functions in one generation feeding a reduction (schedules)",
 )
 _t(
+    "T23",
+    [FSpec("cs", ["x"], ["colsum"], "x[:, j] -> colsum[j]"), FSpec("e", ["x"], ["ee"], "x[i, j] -> ee[i, j]")],
+    lambda n, v: {"x": _arr2(v, 0, n[0], n[1])},
+    2,
+    "2-D root array with two consumers: the first leaves the leading axis unnamed (column reduction), the second names both",
+)
+_t(
+    "T24",
+    [
+        FSpec("f", ["a", "b"], ["y"], "a[i], b[j] -> y[i, j]"),
+        FSpec("g", ["y"], ["r"], "y[i, :] -> r[i]"),
+        FSpec("h", ["y"], ["s"], "y[:, j] -> s[j]"),
+    ],
+    lambda n, v: {"a": _lst(v, 0, n[0]), "b": _lst(v, 3, n[1])},
+    2,
+    "one array partially reduced along different axes by two consumers (no full reduction downstream)",
+)
+_t(
     "TG",
     [
         FSpec("f", ["a", "c"], ["y"], "a[i] -> y[i]"),
